@@ -43,6 +43,11 @@ COSIM = False
 ASSUMPTIONS = ['SequentialIntegerAttributeDecoder: PreparePortableAttribute / GetPortableAttributeData / portable_attribute()->buffer()->data_size() are contract stubs (the portable attribute is an int32 array of num_entries * num_components values, as PointAttribute::Reset allocates it); the prediction scheme is an opaque object whose three virtual calls are stubs requiring exactly the buffer extent DecodeIntegerValues is entitled to pass',
                'DecodeSymbols is used through a contract that requires the output array to hold num_values entries (its dispatch is under contract in unit symbols; its loops are not)',
                'point_ids.size() < 2^31 / num_components (the cast static_cast<int>(num_entries) and the product num_entries * num_components are caller obligations: the number of points is checked against the stream length by the callers)']
-J('DecodeIntegerValues.contract', 'h_enf_SIAD_DecodeIntegerValues', ['C02', 'C03', 'C18'], enforce='SIAD_DecodeIntegerValues', loops=True,
-  replace=['DecoderBuffer_DecodeBytes', 'DecodeSymbols', 'ConvertSymbolsToSignedInts_inplace', 'PS_AreCorrectionsPositive', 'PS_DecodePredictionData', 'PS_ComputeOriginalValues'], timeout=900, cost=4, cbmc=['--object-bits', '11'])
+# The sizes in this function are products num_entries * num_components * sizeof: with a SYMBOLIC component count the solver has to relate the multiplier
+# in the code to the one in the stub contracts (measured: no answer in 15 min); with the count fixed per job every product is by a constant.
+# Quick tier: counts <= 0 (refused) and 1..8; thorough: 9..32.
+for nc in [0] + list(range(1, 33)):
+    J('DecodeIntegerValues.contract.nc%d' % nc, 'h_enf_SIAD_DecodeIntegerValues', ['C02', 'C03', 'C18'], enforce='SIAD_DecodeIntegerValues', loops=True, defines=DEFS + ['-DATTR_NC=%d' % nc],
+      replace=['DecoderBuffer_DecodeBytes', 'DecodeSymbols', 'ConvertSymbolsToSignedInts_inplace', 'PS_AreCorrectionsPositive', 'PS_DecodePredictionData', 'PS_ComputeOriginalValues'],
+      timeout=900, cost=4, cbmc=['--object-bits', '11'], tier=None if nc <= 8 else 'thorough', no_vacuity=nc > 2)
 J('ConvertSymbolsToSignedInts.inplace.contract', 'h_enf_ConvertSymbolsToSignedInts_inplace', ['C02', 'C17'], enforce='ConvertSymbolsToSignedInts_inplace', loops=True, timeout=900, cost=4)
